@@ -191,6 +191,38 @@ def check(ctx):
                 ctx.fail_input(case, 'scalar / vector / matrix queries give inconsistently shaped answers: matrix %s, single row ndim %d'
                                % (mat.shape, np.ndim(row)))
                 continue
+        # one prior object, consecutive queries of the SAME point in other shapes / dtypes (an answer must depend on the query at
+        # hand only, never on the previous one): shape () / (d,) -> one value, shape (1, d) -> one row
+        d = len(order)
+        x0 = np.array(X[0], dtype=float)
+        shapes = [(d,), (1, d)] if d > 1 else [(), (1,), (1, 1)]
+        hist_bad = None
+        with np.errstate(all='ignore'):
+            for fn_name in ('pdf', 'logpdf'):
+                fn = getattr(prior, fn_name)
+                ref = float(np.ravel(fn(x0.reshape(shapes[0])))[0])
+                for s1 in shapes:
+                    for s2 in shapes:
+                        fn(x0.reshape(s1))
+                        r2 = fn(x0.reshape(s2))
+                        want_nd = 0 if (len(s2) == 0 or (len(s2) == 1 and d > 1)) else 1
+                        v2 = float(np.ravel(r2)[0])
+                        if np.ndim(r2) != want_nd or np.size(r2) != 1 or not (v2 == ref or (math.isnan(v2) and math.isnan(ref))
+                                                                             or math.isclose(v2, ref, rel_tol=1e-12)):
+                            hist_bad = '%s of the point in shape %s right after the same point in shape %s: answer of shape %s value %r, expected ndim %d value %r' \
+                                % (fn_name, s2, s1, np.shape(r2), v2, want_nd, ref)
+                # another dtype whose bytes equal those of a different float point
+                xi = np.ones(d, dtype=np.int64)
+                a = np.ravel(fn(xi.astype(float)))[0]
+                fn(xi.view(np.float64))
+                b = np.ravel(fn(xi))[0]
+                if not (a == b or (np.isnan(a) and np.isnan(b))):
+                    hist_bad = '%s of the integer-typed point %s gives %r right after a query of the float point with the same bytes; alone it gives %r' \
+                        % (fn_name, xi.tolist(), float(b), float(a))
+        ctx.count('query_history', 'same point, other shape / dtype, consecutive')
+        if hist_bad:
+            ctx.fail_input(dict(case, x=X[0]), 'consecutive queries on one ModelPrior: ' + hist_bad)
+            continue
         # matrix-shaped gradient query with zero-density rows in ANY position: row i is the gradient at row i
         with np.errstate(all='ignore'):
             order_rows = list(range(len(Xa)))
